@@ -5,6 +5,7 @@ import (
 	"context"
 	"encoding/binary"
 	"encoding/hex"
+	"errors"
 	"fmt"
 	"sort"
 	"strings"
@@ -134,6 +135,15 @@ func (rd rRound) String() string {
 // execRound runs a round against the persistent store: block trie over (memory over pndb), children merged or
 // discarded, then SaveChanges(includeDeletes=false) and RecordDeadNodes. Returns the new root and the dead set.
 func execRound(pndb *util.PNodeDB, root []byte, rd rRound) (newRoot []byte, dead map[string]bool, err error) {
+	P, err := buildRound(pndb, root, rd)
+	if err != nil {
+		return nil, nil, err
+	}
+	return saveRound(P, pndb, rd)
+}
+
+// buildRound executes the round's transactions on a block trie layered over the persistent store (nothing is saved).
+func buildRound(pndb *util.PNodeDB, root []byte, rd rRound) (*util.MerklePatriciaTrie, error) {
 	P := lab.NewMPT(util.NewLevelNodeDB(util.NewMemoryNodeDB(), pndb, false), rd.version, root)
 	for _, tx := range rd.txns {
 		C := lab.NewMPT(util.NewLevelNodeDB(util.NewMemoryNodeDB(), P.GetNodeDB(), false), rd.version, P.GetRoot())
@@ -141,14 +151,23 @@ func execRound(pndb *util.PNodeDB, root []byte, rd rRound) (newRoot []byte, dead
 			if op.del {
 				_, _ = C.Delete(util.Path(op.path))
 			} else if _, ierr := C.Insert(util.Path(op.path), &lab.Val{B: op.val}); ierr != nil {
-				return nil, nil, fmt.Errorf("insert %q in child: %w", op.path, ierr)
+				return nil, fmt.Errorf("insert %q in child: %w", op.path, ierr)
 			}
 		}
 		if tx.merge {
 			if merr := P.MergeMPTChanges(C); merr != nil {
-				return nil, nil, fmt.Errorf("merge: %w", merr)
+				return nil, fmt.Errorf("merge: %w", merr)
 			}
 		}
+	}
+	return P, nil
+}
+
+// saveRound: existence probe of the new root (the way a node asks "do I have this state already?"), then
+// SaveChanges(includeDeletes=false), RecordDeadNodes, and a read of the saved root through the same store object.
+func saveRound(P *util.MerklePatriciaTrie, pndb *util.PNodeDB, rd rRound) (newRoot []byte, dead map[string]bool, err error) {
+	if r := P.GetRoot(); len(r) > 0 {
+		_, _ = pndb.GetNode(r)
 	}
 	if serr := P.SaveChanges(context.Background(), pndb, false); serr != nil {
 		return nil, nil, fmt.Errorf("save: %w", serr)
@@ -161,8 +180,13 @@ func execRound(pndb *util.PNodeDB, root []byte, rd rRound) (newRoot []byte, dead
 	if rerr := pndb.RecordDeadNodes(dn, rd.version); rerr != nil {
 		return P.GetRoot(), dead, fmt.Errorf("record dead nodes: %w", rerr)
 	}
+	if missing, merr := lab.NewMPT(pndb, rd.version, P.GetRoot()).HasMissingNodes(context.Background()); merr != nil || missing {
+		return P.GetRoot(), dead, fmt.Errorf("%w: HasMissingNodes = %v, %v", errSameObjectRead, missing, merr)
+	}
 	return P.GetRoot(), dead, nil
 }
+
+var errSameObjectRead = errors.New("the root just saved is not completely readable through the store object it was saved through")
 
 // checkReadable opens a fresh trie on a re-opened store alone at a saved root and compares with the model;
 // additionally reads the stored bytes with the harness' own parser.
@@ -280,6 +304,46 @@ func runC04(c *fw.Ctx) {
 			}
 			cp.Close()
 			wc.Restart()
+			// (a0) the failure seen as a transient write error: the same trie and store objects try again once the
+			// store accepts writes; a save that then reports success must have saved the state completely
+			if i < W {
+				work2 := fmt.Sprintf("%s/retry-%d", tmp, i)
+				grocksdb.CopyDisk(tmp+"/pre", work2)
+				tp, _ := util.NewPNodeDB(work2, "")
+				if P2, berr := buildRound(tp, root, rd); berr == nil {
+					wc2 := grocksdb.Control(work2)
+					wc2.CrashAfterWrites(i)
+					_, _, e1 := saveRound(P2, tp, rd)
+					wc2.Restart()
+					if e1 != nil {
+						if rr2, _, e2 := saveRound(P2, tp, rd); e2 == nil {
+							tp.Close()
+							if !bytes.Equal(rr2, newRoot) {
+								fail("v%d: the save retried on the same trie after a write failure at %d/%d gives root %x, expected %x", v, i, W, rr2, newRoot)
+							} else if f := checkReadable(work2, saved[len(saved)-1]); f != "" {
+								fail("v%d: the save failed at write %d/%d, was retried on the same trie and store objects and reported success, but the state is incomplete: %s", v, i, W, f)
+							}
+							c.Count("same_object_save_retries", 1)
+						} else {
+							tp.Close()
+							if errors.Is(e2, errSameObjectRead) {
+								fail("v%d: save retried after a write failure at %d/%d: %v", v, i, W, e2)
+							}
+							c.Count("same_object_save_retries_refused", 1)
+						}
+					} else {
+						tp.Close()
+					}
+				} else {
+					tp.Close()
+				}
+				grocksdb.DropDisk(work2)
+				if c.Violated() {
+					grocksdb.DropDisk(work)
+					grocksdb.DropDisk(tmp + "/pre")
+					return
+				}
+			}
 			// (a) every previously saved, unpruned root still completely readable
 			for _, s := range retained() {
 				if s.version == v {
@@ -589,9 +653,9 @@ func init() {
 		ID:    "C04",
 		Level: "fault_enumeration",
 		Rule: "each case is a history of 3..10 rounds on a persistent store (real PNodeDB over the logging/crashing grocksdb stand-in). A round = block trie layered over the store at the previous saved root, 1..4 child transactions (1..6 inserts/deletes each, including delete-then-recreate of " +
-			"identical content, re-creation of content deleted in earlier rounds, unchanged re-writes) merged or discarded, then SaveChanges(includeDeletes=false) and RecordDeadNodes; random PruneBelowVersion in between; about every 32nd history contains one fat round (300..1100 inserts: several hundred to more than a thousand changed nodes in one save). After each save every retained root is re-read on a re-opened store " +
+			"identical content, re-creation of content deleted in earlier rounds, unchanged re-writes) merged or discarded, then an existence probe of the new root on the store, SaveChanges(includeDeletes=false), RecordDeadNodes and a completeness read of the saved root through the same store object; random PruneBelowVersion in between; about every 32nd history contains one fat round (300..1100 inserts: several hundred to more than a thousand changed nodes in one save). After each save every retained root is re-read on a re-opened store " +
 			"(HasMissingNodes, lookups, Iterate, raw stored bytes through the harness' parser). For EVERY prefix length i=0..W of the save's physical write stream the round is re-executed from a copy of the pre-round disk with the store crashing after i writes; after restart every earlier " +
-			"retained root must be fully readable and re-executing + re-saving the round must give the same root and a complete state. non-trivial/distinct = distinct (history, round, crash index, root) points",
+			"retained root must be fully readable and re-executing + re-saving the round must give the same root and a complete state; the same failure is also played as a transient write error (the same trie and store objects retry the save once the store accepts writes again: a retry that reports success must leave a complete state). non-trivial/distinct = distinct (history, round, crash index, root) points",
 		Cases: func(tier string) int {
 			if tier == "thorough" {
 				return 48000
@@ -599,7 +663,7 @@ func init() {
 			return 2000
 		},
 		Run:        runC04,
-		Floors:     map[string]int64{"histories": 1800, "rounds": 10000, "crash_points": 30000, "roots_reread": 30000, "prunes": 1000, "recreate_same_txn": 1000, "recreate_from_graveyard": 1000, "max:save_stream_writes": 2, "fat_rounds": 30},
+		Floors:     map[string]int64{"histories": 1800, "rounds": 10000, "crash_points": 30000, "roots_reread": 30000, "prunes": 1000, "recreate_same_txn": 1000, "recreate_from_graveyard": 1000, "max:save_stream_writes": 2, "fat_rounds": 30, "same_object_save_retries": 15000},
 		Exhaustive: nil,
 		Assumptions: []string{
 			"the store is modelled as a sorted KV store with atomic write batches and process-crash durability of completed writes (wo.SetSync(false)); OS-crash loss of unsynced WAL is out of scope",
